@@ -75,9 +75,4 @@ pub proof fn axiom_slice_arr_ne_u8<const N: usize>()
 /// `None` if `doc` does not start with a JSON object having exactly one such string member.
 pub uninterp spec fn json_str_field(doc: Seq<u8>, name: Seq<char>) -> Option<Seq<u8>>;
 pub struct JsonDeError;
-// -- core: Result::unwrap_or_else (vstd specifies only the Option one)
-pub assume_specification<T, E, F: FnOnce(E) -> T>[ Result::<T, E>::unwrap_or_else ](x: Result<T, E>, f: F) -> (res: T)
-    requires x is Err ==> f.requires((x->Err_0,)),
-    ensures
-        x is Ok ==> res == x->Ok_0,
-        x is Err ==> f.ensures((x->Err_0,), res);
+// (`Result::unwrap_or_else` is specified in model/stdauto.rs)
